@@ -366,6 +366,8 @@ IMPLS: Dict[str, Callable[..., Any]] = {
     # carry it fall through to the next field by IDENTITY, as tuple comparison does - first-come order decides
     "samenan": lambda x: _SAME_NAN,
     "selfunequal": lambda x: _SELF_UNEQUAL,
+    # ... and one whose == cannot be asked at all (an array-like "ambiguous truth value"): never asked about itself
+    "sameraiser": lambda x: _SAME_RAISER,
     "failkey": _failkey,
     "keyitem": lambda x: Item(_k(x) // 2, ("key", _uid(x))),
     "nullary": lambda: None,  # replaced per run by the iter(callable, sentinel) feeder
@@ -381,6 +383,16 @@ class _SelfUnequal:
     def __repr__(self): return "<never-equal key>"
 
 
+class _EqRaiser:
+    __hash__ = None  # type: ignore
+
+    def __eq__(self, other): raise ValueError("the truth value of this comparison is ambiguous")
+    def __lt__(self, other): return False
+    def __gt__(self, other): return False
+    def __repr__(self): return "<key refusing ==>"
+
+
+_SAME_RAISER = _EqRaiser()
 _SAME_NAN = float("nan")
 _SELF_UNEQUAL = _SelfUnequal()
 
